@@ -336,6 +336,44 @@ def text_violation(case, rec, k):
     return None
 
 
+def stopwatch_cases(chk, tier):
+    """The time limit is about the build time ACCUMULATED over all steps: the real StopWatch under a deterministic
+    clock must behave like a cumulative stopwatch (tools/probe_stopwatch.py), call by call, including the step at
+    which ProofTimeoutError is raised and the flags it leaves."""
+    args_ = [('CPL', 'Kab:a:b'), ('CPL', 'AKabKcd:UaUbUcd'), ('K', 'MKab:KMaMb'), ('FDE', 'NKab:ANaNb'), ('S4', 'LLa:La'),
+             ('CFOL', 'SxKFxGx:SxFx:SxGx'), ('K3', 'AaNa:b')]
+    if tier == 'thorough':
+        args_ += [('S5', 'MLa:a'), ('LP', 'b:KaNa'), ('T', 'La:LLa'), ('GO', 'UaUba')]
+    cases = [dict(logic=l, arg=a, timeout=t) for l, a in args_ for t in (10 ** 9, 40, 90, 150, 260, 400)]
+    out = probe_json('probe_stopwatch.py', stdin=json.dumps(dict(cases=cases)), timeout=1800)['cases']
+    for c, r in zip(cases, out):
+        real, ref = r.get('real'), r.get('ref')
+        timed = isinstance(ref, list) and any(x[0] == 'err:ProofTimeoutError' for x in ref)
+        chk.case(['stopwatch', c['logic'], c['arg'], c['timeout']], nontrivial=True)
+        chk.count('real_timer_under_fake_clock', 'times out' if timed else 'completes')
+        if isinstance(ref, str):
+            raise MachineryError(f'probe_stopwatch reference run crashed: {ref}')
+        if real != ref:
+            # confirm in fresh interpreters: only a reproducible difference is a finding
+            again = [probe_json('probe_stopwatch.py', stdin=json.dumps(dict(cases=[c])), timeout=600)['cases'][0] for _ in range(2)]
+            if any(a.get('real') == a.get('ref') for a in again):
+                chk.count('real_timer_under_fake_clock', 'unconfirmed difference')
+                continue
+            real, ref = again[-1].get('real'), again[-1].get('ref')
+            k = next((i for i, (x, y) in enumerate(zip(real, ref)) if x != y), min(len(real), len(ref))) if isinstance(real, list) else 0
+            chk.violation('StopWatch/build-time-not-cumulative',
+                          f"{c['logic']} {c['arg']} build_timeout={c['timeout']} ms under a clock advancing 1 ms per reading: "
+                          f"step() call #{k + 1} gives {real[k] if isinstance(real, list) and k < len(real) else real} with the real timer, "
+                          f"{ref[k] if k < len(ref) else 'nothing'} with a cumulative stopwatch [outcome, finished, premature, timed_out, steps, elapsed_ms]",
+                          dict(kind='stopwatch', case=c, real=real, reference=ref))
+        elif timed:
+            last = ref[-1]
+            if not (last[1] and last[2] and last[3]):
+                chk.violation('Tableau._check_timeout/timeout-leaves-unfinished',
+                              f"{c['logic']} {c['arg']} build_timeout={c['timeout']}: ProofTimeoutError raised but flags are {last}",
+                              dict(kind='stopwatch', case=c, real=real))
+
+
 def run(args) -> int:
     chk = Check('C17', args.tier, args.seed)
     rng = random.Random(args.seed)
@@ -471,6 +509,7 @@ def run(args) -> int:
         "t = Tableau('CPL', 'Kab:a', auto_build_trunk=False); b = t.branch(); b.append(sdwnode(a & b)); t.step(); t.build(): "
         "started by hand, build_trunk refused for ever, yet invalid=True is reported for the argument whose trunk was never built "
         "(C17_hand_started_verdict_without_trunk_refuted)"]
+    stopwatch_cases(chk, args.tier)
     chk.notes['observations_outside_the_property_text'] += [
         "Tableau.branch() has no guard: t = Tableau('CPL', 'a:a').build() is valid; after t.branch() (+ any node) t.valid is False and "
         "t.invalid is True while t.stats['result'] still says 'Valid' (C17_hand_branch_flips_verdict)",
